@@ -2338,61 +2338,184 @@ func valueParent(v ssa.Value) *ssa.Function {
 // only reads — either the bool element of a map whose values are all true, or
 // the presence flag of `_, ok := table[index]`.  The constant keys are returned.
 func pcTableLookup(w *World, v ssa.Value) (keys []constant.Value, index ssa.Value, ok bool) {
+	keys, _, index, ok = pcTableEntries(w, v, false)
+	return
+}
+
+// pcTableEntries is pcTableLookup that also accepts the element itself
+// (table[index], or the first result of the comma-ok form) when asElem is
+// set, and returns the constant values beside the keys (nil where an entry's
+// value is not a constant).
+func pcTableEntries(w *World, v ssa.Value, asElem bool) (keys, vals []constant.Value, index ssa.Value, ok bool) {
 	var lk *ssa.Lookup
 	wantTrue := false
 	switch x := v.(type) {
 	case *ssa.Lookup:
 		if x.CommaOk {
-			return nil, nil, false
+			return nil, nil, nil, false
 		}
-		lk, wantTrue = x, true
+		lk, wantTrue = x, !asElem
 	case *ssa.Extract:
 		l, isL := x.Tuple.(*ssa.Lookup)
-		if !isL || !l.CommaOk || x.Index != 1 {
-			return nil, nil, false
+		if !isL || !l.CommaOk || (x.Index != 1 && !(asElem && x.Index == 0)) {
+			return nil, nil, nil, false
 		}
 		lk = l
 	default:
-		return nil, nil, false
+		return nil, nil, nil, false
 	}
 	ld, isLd := lk.X.(*ssa.UnOp)
 	if !isLd || ld.Op != token.MUL {
-		return nil, nil, false
+		return nil, nil, nil, false
 	}
 	g, isG := ld.X.(*ssa.Global)
 	if !isG {
-		return nil, nil, false
+		return nil, nil, nil, false
 	}
 	tv, isV := g.Object().(*types.Var)
 	if !isV || !w.InRepoObj(tv) {
-		return nil, nil, false
+		return nil, nil, nil, false
 	}
 	if _, isMap := tv.Type().Underlying().(*types.Map); !isMap {
-		return nil, nil, false
+		return nil, nil, nil, false
 	}
 	init, ip := w.VarInit(tv)
 	cl, isCL := ast.Unparen(init).(*ast.CompositeLit)
 	if !isCL {
-		return nil, nil, false
+		return nil, nil, nil, false
 	}
 	for _, el := range cl.Elts {
 		kv, isKV := el.(*ast.KeyValueExpr)
 		if !isKV {
-			return nil, nil, false
+			return nil, nil, nil, false
 		}
 		k := ConstOf(ip, kv.Key)
 		if k == nil {
-			return nil, nil, false
+			return nil, nil, nil, false
 		}
 		if wantTrue {
 			if c := ConstOf(ip, kv.Value); c == nil || c.Kind() != constant.Bool || !constant.BoolVal(c) {
-				return nil, nil, false
+				return nil, nil, nil, false
 			}
 		}
 		keys = append(keys, k)
+		vals = append(vals, ConstOf(ip, kv.Value))
 	}
 	if !w.readOnlyTable(tv) {
-		return nil, nil, false
+		return nil, nil, nil, false
 	}
-	return keys, lk.Index, true
+	return keys, vals, lk.Index, true
+}
+
+// stringDecision reads a loop-free function that maps a string parameter to
+// an integer constant — by comparisons with constant words, a switch, or a
+// lookup in a read-only table literal — as the word → value map it computes.
+// Exits that do not return a constant (an error path, say) leave their words
+// out.  Words: every constant the parameter is compared with and every key
+// of a table it is looked up in.
+func stringDecision(w *World, f *ssa.Function, pidx int) (map[string]int64, string) {
+	if f == nil || pidx >= len(f.Params) || len(ssaLoops(f)) > 0 {
+		return nil, "shape not recognised"
+	}
+	param := f.Params[pidx]
+	sym := NewSym(w)
+	rows := sym.retTable(f, 0)
+	words := map[string]bool{}
+	isParam := func(v ssa.Value) bool {
+		for {
+			switch x := v.(type) {
+			case *ssa.ChangeType:
+				v = x.X
+				continue
+			case *ssa.Convert:
+				v = x.X
+				continue
+			}
+			break
+		}
+		return readsParam(v, param)
+	}
+	wordOf := func(a *pcAtom) (string, bool) {
+		if a.op != token.EQL || a.x == nil || a.y == nil {
+			return "", false
+		}
+		for _, pr := range [][2]ssa.Value{{a.x, a.y}, {a.y, a.x}} {
+			if c, ok := pr[0].(*ssa.Const); ok && c.Value != nil && c.Value.Kind() == constant.String && isParam(pr[1]) {
+				return constant.StringVal(c.Value), true
+			}
+		}
+		return "", false
+	}
+	note := func(v ssa.Value) {
+		if keys, _, idx, ok := pcTableEntries(w, v, true); ok && isParam(idx) {
+			for _, k := range keys {
+				if k.Kind() == constant.String {
+					words[constant.StringVal(k)] = true
+				}
+			}
+		}
+	}
+	for _, row := range rows {
+		for _, a := range row.cond.atoms() {
+			if wd, ok := wordOf(a); ok {
+				words[wd] = true
+			}
+			note(a.v)
+		}
+		note(row.val)
+	}
+	out := map[string]int64{}
+	for wd := range words {
+		model := func(a *pcAtom) (bool, bool) {
+			if c, ok := wordOf(a); ok {
+				return c == wd, true
+			}
+			if a.subj != "" && strings.HasPrefix(a.subj, "len(") {
+				if bo, ok := a.v.(*ssa.BinOp); ok {
+					for _, side := range []ssa.Value{bo.X, bo.Y} {
+						if arg, ok := isLenCall(side); ok && isParam(arg) {
+							return a.set.contains(int64(len(wd))), true
+						}
+					}
+				}
+			}
+			if keys, _, idx, ok := pcTableEntries(w, a.v, false); ok && isParam(idx) {
+				for _, k := range keys {
+					if k.Kind() == constant.String && constant.StringVal(k) == wd {
+						return true, true
+					}
+				}
+				return false, true
+			}
+			return false, false
+		}
+		n := 0
+		for _, row := range rows {
+			hit, decided := pcEvalFree(row.cond, model)
+			if !decided {
+				return nil, "the value for \"" + wd + "\" depends on more than the word"
+			}
+			if !hit {
+				continue
+			}
+			n++
+			if c, ok := intConstOf(row.val); ok {
+				out[wd] = c
+				continue
+			}
+			if keys, vals, idx, ok := pcTableEntries(w, row.val, true); ok && isParam(idx) {
+				for i, k := range keys {
+					if k.Kind() == constant.String && constant.StringVal(k) == wd && vals[i] != nil {
+						if iv, isInt := constant.Int64Val(constant.ToInt(vals[i])); isInt {
+							out[wd] = iv
+						}
+					}
+				}
+			}
+		}
+		if n != 1 {
+			return nil, fmt.Sprintf("%d exits are taken for \"%s\"", n, wd)
+		}
+	}
+	return out, ""
 }
